@@ -74,7 +74,7 @@ def check_orth(ctx, Y, F, Z, p, k, stab, tF, nrmY):
         mx = max(float(np.max(np.abs(G))) for G in Z)
         ctx.check(mx <= 2.0, "orthogonalize(use_stab): an entry of Z is larger than 2", max_entry=mx, k=k)
         pm = float(np.max(np.abs(Z[k])))
-        if pm > 1e-100:
+        if pm > 0:
             ctx.check(1.0 <= pm < 2.0, "orthogonalize(use_stab): pivot core not normalised to [1, 2)", pivot_max=pm, k=k)
     return rout != rin
 
